@@ -1996,8 +1996,13 @@ impl World {
                 );
                 if let Some(key) = fname.strip_suffix(".mft") {
                     let kname = self.key_name(key);
+                    let (kslot, _) = role_of(self, key);
                     let facts = keyfacts.entry(kname).or_default();
                     facts.ca = name.clone();
+                    // (the resource class the key belongs to, as the slot
+                    // of Krill.tla: due-ness is decided per class)
+                    facts.slot = if kslot.is_empty() { name.clone() }
+                                 else { kslot };
                     if let Ok(mft) = rpki::repository::manifest::Manifest
                         ::decode(data.clone(), true)
                     {
@@ -2286,7 +2291,8 @@ impl World {
             }).cloned().collect();
             missing.sort();
             keys.insert(kname.clone(), json!({
-                "ca": facts.ca, "mft": facts.mft.unwrap_or(-1),
+                "ca": facts.ca, "slot": facts.slot,
+                "mft": facts.mft.unwrap_or(-1),
                 "store": store_numbers.get(&kname).copied().unwrap_or(-1),
                 "store_next": store_next.get(&kname).copied().unwrap_or(-1),
                 "crl": facts.crl_number.unwrap_or(-1),
@@ -2304,6 +2310,7 @@ impl World {
 #[derive(Default)]
 struct KeyFacts {
     ca: String,
+    slot: String,
     mft: Option<i64>,
     mft_this: i64,
     mft_next: i64,
